@@ -79,6 +79,12 @@ structure Ctx where
   vals : Nat → Nat
   size : Nat → Nat
   passLut : Nat → Bool    -- `ps.lut_tensor is not None`
+  /-- which `lut.py` is modelled. `false`/`false`: the code as it stands at /repo 755ba3e. `widthAware`: with repair
+      /verif_patches/C03-10 (`get_equivalent` also compares `storage_size()`); `sticky`: with repair /verif_patches/C03-11
+      (a tensor object that was given an address earlier in the stream keeps it). The check finds out which one is under
+      test by running the two witnesses of `Props/C03LutState.lean` on the real code (harness/lutstate_lib.py `probe`). -/
+  widthAware : Bool := false
+  sticky : Bool := false
 
 inductive Cmd
   | lutDma (p t : Nat)
@@ -110,6 +116,30 @@ deriving Repr, DecidableEq
 
 def mkTab (c : Ctx) (t addr : Nat) : Tab := ⟨t, c.vals t, c.size t, addr⟩
 
+/-- `lut_state.get_equivalent(lut_tens)` as the pass calls it (with C03-10: same storage size as well) -/
+def getEquiv (c : Ctx) (st : State) (t : Nat) : Option Tab :=
+  st.find? fun u => (!c.widthAware || u.size == c.size t) && u.vals == c.vals t
+
+/-- C03-11 `assigned_address.get(lut_tens)`: the address the tensor object was given earlier in this stream -/
+def prevAddr (c : Ctx) (s : PS) (t : Nat) : Option Nat := if c.sticky then lookup s.env.addr t else none
+
+def reusable (prev : Option Nat) (e : Tab) : Bool :=
+  match prev with
+  | none => true
+  | some a => a == e.addr
+
+/-- the resident table the DMA of `t` can be dropped for (C03-11: only if it is where `t` was before) -/
+def findReusable (c : Ctx) (s : PS) (t : Nat) : Option Tab :=
+  match getEquiv c s.st t with
+  | some e => if reusable (prevAddr c s t) e then some e else none
+  | none => none
+
+/-- where a table that has to be loaded goes (C03-11: where it was before, else `find_best_address`) -/
+def chooseAddr (c : Ctx) (s : PS) (t : Nat) : Except Err Nat :=
+  match prevAddr c s t with
+  | some a => .ok a
+  | none => findBestAddress s.st c.lutStart (c.lutStart + c.lutSize) (c.size t)
+
 /-- the body of the loop of `optimize_high_level_cmd_stream` for one command -/
 def step (c : Ctx) (s : PS) : Cmd → Except Err (PS × Act)
   | .stripe p =>
@@ -117,12 +147,12 @@ def step (c : Ctx) (s : PS) : Cmd → Except Err (PS × Act)
     else .ok (s, .untouched false)
   | .other => .ok (s, .untouched false)
   | .lutDma p t =>
-    match getEquivalent s.st (c.vals t) with
+    match findReusable c s t with
     | some e =>
       let i := (e.addr - c.lutStart) / slotSize
       .ok ({ s with env := { addr := (t, e.addr) :: s.env.addr, idx := (p, i) :: s.env.idx } }, .dropped e e.addr i)
     | none =>
-      match findBestAddress s.st c.lutStart (c.lutStart + c.lutSize) (c.size t) with
+      match chooseAddr c s t with
       | .error e => .error e
       | .ok a =>
         let i := (a - c.lutStart) / slotSize
@@ -160,16 +190,18 @@ def stepLog (c : Ctx) (s : PS) : Cmd → List String
   | .stripe p => if !c.passLut p && c.reserved == 0 then ["new"] else []
   | .other => []
   | .lutDma _ t =>
-    match getEquivalent s.st (c.vals t) with
-    | some e => [s!"eq [{showState s.st}] {t} -> {e.tid}"]
+    let l1 := s!"eq [{showState s.st}] {t} -> " ++ (match getEquiv c s.st t with | some e => toString e.tid | none => "-")
+    match findReusable c s t with
+    | some _ => [l1]
     | none =>
-      let l1 := s!"eq [{showState s.st}] {t} -> -"
       let stop := c.lutStart + c.lutSize
-      match findBestAddress s.st c.lutStart stop (c.size t) with
+      match chooseAddr c s t with
       | .error _ => [l1, "raise ValueError"]
       | .ok a =>
-        [l1, s!"fba [{showState s.st}] {c.lutStart} {stop} {c.size t} -> {a}", "new",
-         s!"put [{showState s.st}] {t}@{a} -> [{showState (put s.st (mkTab c t a))}]"]
+        [l1] ++ (match prevAddr c s t with
+                 | some _ => []
+                 | none => [s!"fba [{showState s.st}] {c.lutStart} {stop} {c.size t} -> {a}"]) ++
+        ["new", s!"put [{showState s.st}] {t}@{a} -> [{showState (put s.st (mkTab c t a))}]"]
 
 def runLog (c : Ctx) : PS → List Cmd → List String
   | _, [] => []
